@@ -60,8 +60,15 @@ def check(run):
         run.tie_breaks.append('model driver failed on some case')
     failing = []
     agree = 0
+    hyp = {'DocWf': 0, 'DocInv': 0, 'SpecShape': 0, 'NamesOk': 0, 'all': 0, 'documents': 0}
     for it, r in zip(items, res):
         X.account(run, it, r)
+        if r['model'] and len(r['model'].get('I', '')) == 4:
+            bits = r['model']['I']
+            hyp['documents'] += 1
+            for k, name in enumerate(['DocWf', 'DocInv', 'SpecShape', 'NamesOk']):
+                hyp[name] += bits[k] == '1'
+            hyp['all'] += bits[1:] == '111'
         if r['impl'] is None or not r['dump'].get('D'):
             continue
         d = X.compare_model(r)
@@ -99,6 +106,7 @@ def check(run):
             r1 = dict(r); r1['case'] = dict(r['case'], exprs=[e])
             failing.append((one, r1, 'spec-mismatch', '%s: implementation %s, XPath 1.0 %s' % (e, av[:150], bv[:150])))
     run.extra['agreeing_evaluations'] = agree
+    run.extra['cases_satisfying_theorem_hypotheses'] = hyp
     X.report_failures(run, 'C05', failing, oracle=c05_oracle)
     run.extra['wall_generate_evaluate_s'] = round(time.time() - t0, 1)
     return run.finish(level='proof (partial)',
